@@ -150,13 +150,13 @@ def t1_rewrite(src, model='crate::vcoll', what='file'):
     return src
 
 
-def t1_vec_rewrite(src, what):
+def t1_vec_rewrite(src, what, inline=False, v1=False):
     """T1v: additionally redirect `Vec`/`vec!` of one file to the fixed-capacity Vec model (line numbers preserved)."""
     m = re.search(r'^use [^\n]*;[ \t]*$', src, flags=re.M)
     if not m:
         raise Inconclusive('T1v: no use line to attach the Vec redirection to in %s' % what)
-    src = src[:m.end()] + ' use crate::vcoll::vecmodel::Vec;' + src[m.end():]
-    src = re.sub(r'(?<![\w:])vec!\[', 'crate::vvec![', src)
+    src = src[:m.end()] + (' use crate::vcoll::vecmodel_inline::Vec;' if inline else (' use crate::vcoll::vecmodel_v1::Vec;' if v1 else ' use crate::vcoll::vecmodel::Vec;')) + src[m.end():]
+    src = re.sub(r'(?<![\w:])vec!\[', 'crate::vvec_v1![' if v1 else 'crate::vvec![', src)
     if re.search(r'\bstd::vec::Vec\b|\balloc::vec::Vec\b', src):
         raise Inconclusive('T1v: fully qualified Vec path in %s' % what)
     return src
@@ -186,7 +186,7 @@ def module_closure(srcdir, roots):
 def extract_fns(src, names, what):
     out = []
     for name in names:
-        m = re.search(r'^(?:pub(?:\([a-z]+\))?\s+)?fn\s+' + re.escape(name) + r'\b', src, re.M)
+        m = re.search(r'^[ \t]*((?:pub(?:\([a-z]+\))?\s+)?fn\s+' + re.escape(name) + r'\b)', src, re.M)
         if not m:
             raise Inconclusive('T3: fn %s not found in %s' % (name, what))
         i = src.index('{', m.end())
@@ -219,8 +219,7 @@ def extract_fns(src, names, what):
                 if depth == 0:
                     break
             j += 1
-        # keep attributes / doc comments directly above
-        start = m.start()
+        start = m.start(1)
         out.append(src[start:j + 1])
     return '\n\n'.join(out) + '\n'
 
@@ -251,6 +250,8 @@ def gen_scratch(prop, job, dest, t1=True, extra_tests=None, cap=None, release=Fa
     vcoll = read(os.path.join(VERIF, 'model', 'vcoll.rs'))
     vcoll = re.sub(r'pub const CAP: usize = \d+;', 'pub const CAP: usize = %d;' % cap, vcoll, count=1)
     vcoll = re.sub(r'pub const VCAP: usize = \d+;', 'pub const VCAP: usize = %d;' % job.get('vcap', 8), vcoll, count=1)
+    vcoll = re.sub(r'pub const BCAP: usize = \d+;', 'pub const BCAP: usize = %d;' % job.get('bcap', 8), vcoll, count=1)
+    model_path = 'crate::vcoll::compact' if job.get('model') == 'compact' else 'crate::vcoll'
     extra_tests = extra_tests or {}
     files_used = []
 
@@ -278,9 +279,11 @@ def gen_scratch(prop, job, dest, t1=True, extra_tests=None, cap=None, release=Fa
             s = read(os.path.join(ssrc, m + '.rs'))
             files_used.append('shared/src/%s.rs' % m)
             if t1s:
-                s = t1_rewrite(s, 'crate::vcoll', 'shared/src/%s.rs' % m)
+                s = t1_rewrite(s, model_path, 'shared/src/%s.rs' % m)
             if t1s and m in job.get('t1_vec', []):
-                s = t1_vec_rewrite(s, 'shared/src/%s.rs' % m)
+                s = t1_vec_rewrite(s, 'shared/src/%s.rs' % m, v1=(job.get('vec_model') == 'v1'))
+            if t1s and m in job.get('t1_vec_inline', []):
+                s = t1_vec_rewrite(s, 'shared/src/%s.rs' % m, inline=True)
             inj = job.get('inject')
             if inj and inj['into'] == m:
                 body = read(os.path.join(hdir, inj['file']))
@@ -303,7 +306,7 @@ def gen_scratch(prop, job, dest, t1=True, extra_tests=None, cap=None, release=Fa
             s = read(os.path.join(REPO, sl['from']))
             files_used.append(sl['from'])
             if t1 and sl.get('t1', True):
-                s = t1_rewrite(s, 'crate::vcoll', sl['from'])
+                s = t1_rewrite(s, model_path, sl['from'])
                 need_vcoll = True
             if t1 and sl.get('t1_vec'):
                 s = t1_vec_rewrite(s, sl['from'])
@@ -326,14 +329,27 @@ def gen_scratch(prop, job, dest, t1=True, extra_tests=None, cap=None, release=Fa
         if need_vcoll:
             write(os.path.join(dest, 'hx', 'src', 'vcoll.rs'), vcoll)
             lib += 'pub mod vcoll;\n'
-        ex = hx.get('extract')
-        if ex:
-            src = read(os.path.join(REPO, ex['from']))
-            files_used.append(ex['from'])
-            prelude = ex.get('prelude', '')
-            if not t1:
-                prelude = prelude.replace('shared::vcoll::', 'std::collections::').replace('crate::vcoll::', 'std::collections::')
-            txt = '// extracted verbatim from %s by vk (T3)\n%s\n%s' % (ex['from'], prelude, extract_fns(src, ex['fns'], ex['from']))
+        exs = hx.get('extract')
+        if exs:
+            exs = exs if isinstance(exs, list) else [exs]
+            model_crate = 'shared' if (job.get('shared_roots') is not None and job.get('t1_shared', True)) else 'crate'
+            txt = ''
+            for ex in exs:
+                src = read(os.path.join(REPO, ex['from']))
+                files_used.append(ex['from'])
+                prelude = ex.get('prelude', '')
+                if not t1:
+                    prelude = ex.get('prelude_native', prelude.replace('shared::vcoll::', 'std::collections::').replace('crate::vcoll::', 'std::collections::'))
+                body = extract_fns(src, ex['fns'], ex['from'])
+                if t1 and ex.get('t1_vec'):
+                    body = re.sub(r'(?<![\w:])vec!\[', model_crate + '::vvec![', body)
+                for a, b in (ex.get('subst', []) if t1 else []):
+                    if a not in body:
+                        raise Inconclusive('extract %s: expected text %r not found' % (ex['from'], a))
+                    body = body.replace(a, b)
+                if ex.get('impl'):
+                    body = '%s {\n%s\n}\n' % (ex['impl'], body)
+                txt += '// extracted verbatim from %s by vk (T3)\n%s\n%s\n' % (ex['from'], prelude, body)
             write(os.path.join(dest, 'hx', 'src', 'extracted.rs'), txt)
             lib += 'include!("extracted.rs");\n'
         for hf in hx.get('files', []):
